@@ -162,6 +162,10 @@ func gripperWorker(raw json.RawMessage) interface{} {
 func c15RandSpec(rng *rand.Rand) c15Spec {
 	s := c15Spec{Tables: map[string][]c15Row{}}
 	ids := []string{"1", "2", "3", "4", "x"}
+	if rng.Intn(3) == 0 {
+		// row ids that begin with characters of the vertex prefixes, or with a whole prefix
+		ids = []string{"1", "P", ":2", "P:1", "x"}
+	}
 	nvt := 1 + rng.Intn(3)
 	prefixes := []string{"P:", "Q:", "R:"}
 	labels := []string{"P", "Q", "P"} // two vertex tables may share a label
@@ -257,6 +261,27 @@ func c15Programs(rng *rand.Rand, s c15Spec, n int) [][]tStmt {
 	return out
 }
 
+// a vertex whose first link names an absent row of one table and whose other 300 links lead into another table: more
+// lookups behind the unanswered one than the channel multiplexer queues (gripper/channel_mux.go: QueueSize*5)
+func c15FanSpec() (c15Spec, [][]tStmt) {
+	vt0 := []c15Row{}
+	lt1 := []c15Row{}
+	for i := 1; i <= 300; i++ {
+		vt0 = append(vt0, c15Row{ID: fmt.Sprint(i), Fields: map[string]interface{}{"name": "x"}})
+		lt1 = append(lt1, c15Row{ID: fmt.Sprintf("r%03d", i), Fields: map[string]interface{}{"src": "1", "dst": fmt.Sprint(i)}})
+	}
+	s := c15Spec{
+		Tables: map[string][]c15Row{"vt0": vt0, "vt1": {{ID: "1", Fields: map[string]interface{}{"name": "q"}}}, "lt1": lt1,
+			"lt0": {{ID: "d0", Fields: map[string]interface{}{"src": "1", "dst": "zz"}}}},
+		Vertices: []c15VMap{{Prefix: "P:", Label: "P", Table: "vt0"}, {Prefix: "Q:", Label: "Q", Table: "vt1"}},
+		Edges: []c15EMap{{Name: "A0", From: "P:", To: "Q:", Label: "likes", Table: "lt0", FromField: "src", ToField: "dst"},
+			{Name: "E1", From: "P:", To: "P:", Label: "knows", Table: "lt1", FromField: "src", ToField: "dst"}},
+	}
+	one := tStmt{Op: "V", Strs: []string{"P:1"}}
+	return s, [][]tStmt{{one, {Op: "out"}, {Op: "count"}}, {one, {Op: "outE"}, {Op: "out"}, {Op: "count"}}, {{Op: "V"}, {Op: "out"}, {Op: "count"}},
+		{one, {Op: "outNull"}, {Op: "count"}}, {{Op: "E"}, {Op: "out"}, {Op: "count"}}, {one, {Op: "both"}, {Op: "count"}}}
+}
+
 func c15Extra(p []tStmt) bool {
 	for _, s := range p {
 		switch s.Op {
@@ -302,7 +327,7 @@ func runC15(ctx *Ctx) error {
 	ctx.EvalMod = "Eval_C15"
 	ctx.CaseTy = "c15_case"
 	ctx.Shard = 250
-	ctx.Rule = "random table sets served by gripper.SimpleTableServicer over an in-memory gRPC connection (bufconn): 1..3 vertex tables of 0..5 rows (two tables may share a label), 0..2 link tables of 1..6 rows with empty, missing and dangling endpoint fields, repeated links, link tables read in either direction, mapped through gripper.NewTabularGraph; per table set: V, E, hasLabel starts (the driver plans these itself), V(id)/E(id) for every id and some absent ones, neighbourhood steps, random C01-space programs, and null-producing moves (outNull/inNull/outENull/inENull, with and without labels, after V(), V(ids) and a label start; compared with the embedded store as exact multisets); each program runs through the production compiler on the gripper graph and on the same graph materialised in badger; write calls are tried on the gripper graph; observed: rows of both, which writes were not refused; non-trivial = a program with at least two statements on a table set with at least one edge; distinct by (tables, mapping, program)"
+	ctx.Rule = "random table sets served by gripper.SimpleTableServicer over an in-memory gRPC connection (bufconn): 1..3 vertex tables of 0..5 rows (two tables may share a label; in a third of the table sets the row ids begin with characters of the vertex prefixes or with a whole prefix), 0..2 link tables of 1..6 rows with empty, missing and dangling endpoint fields, repeated links, link tables read in either direction, mapped through gripper.NewTabularGraph; per table set: V, E, hasLabel starts (the driver plans these itself), V(id)/E(id) for every id and some absent ones, neighbourhood steps, random C01-space programs, null-producing moves (outNull/inNull/outENull/inENull, with and without labels, after V(), V(ids) and a label start; compared with the embedded store as exact multisets), and one table set with a vertex whose first link names an absent row of one table and whose 300 other links lead into another table (more lookups behind the unanswered one than the channel multiplexer queues); each program runs through the production compiler on the gripper graph and on the same graph materialised in badger; write calls are tried on the gripper graph; observed: rows of both, which writes were not refused; non-trivial = a program with at least two statements on a table set with at least one edge; distinct by (tables, mapping, program)"
 	type job struct {
 		spec  c15Spec
 		progs [][]tStmt
@@ -320,6 +345,8 @@ func runC15(ctx *Ctx) error {
 			s := c15RandSpec(ctx.Rng)
 			jobs = append(jobs, job{s, c15Programs(ctx.Rng, s, ctx.Pick(12, 30))})
 		}
+		fs, fp := c15FanSpec()
+		jobs = append(jobs, job{fs, fp})
 	}
 	reqs := make([]json.RawMessage, len(jobs))
 	for i, j := range jobs {
